@@ -163,6 +163,44 @@ func GenProg(r *rand.Rand, cfg Cfg) *Prog {
 	return p
 }
 
+// TinyProg draws a very small program over the names a, aa, c, cc. The same names are grouped into options in two
+// ways (variant 0: "a aa" and "c cc" are one option each; variant 1: four separate options), so that byte-identical spec
+// strings with different meanings occur in the same process.
+func TinyProg(r *rand.Rand) *Prog {
+	p := &Prog{}
+	if r.Intn(2) == 0 {
+		p.Opts = []*OptDecl{{Names: []string{"a", "aa"}, Flag: r.Intn(2) == 0}, {Names: []string{"c", "cc"}, Flag: true}}
+	} else {
+		p.Opts = []*OptDecl{{Names: []string{"a"}, Flag: true}, {Names: []string{"aa"}, Flag: r.Intn(2) == 0}, {Names: []string{"c"}, Flag: true}, {Names: []string{"cc"}}}
+	}
+	x := &ArgDecl{Name: "X", Multi: true}
+	p.Args = []*ArgDecl{x}
+	byName := func(n string) *Node {
+		o := p.OptByDashed(n)
+		return &Node{K: KOpt, Opt: o, Name: n}
+	}
+	names := []string{"-a", "--aa", "-c", "--cc"}
+	pick := func() *Node { return byName(names[r.Intn(len(names))]) }
+	var ast *Node
+	switch r.Intn(6) {
+	case 0:
+		ast = &Node{K: KSeq, Kids: []*Node{pick()}}
+	case 1:
+		ast = &Node{K: KSeq, Kids: []*Node{{K: KOptional, Kids: []*Node{pick()}}, {K: KArg, Arg: x}}}
+	case 2:
+		ast = &Node{K: KSeq, Kids: []*Node{pick(), {K: KOptional, Kids: []*Node{pick()}}}}
+	case 3:
+		ast = &Node{K: KSeq, Kids: []*Node{{K: KChoice, Kids: []*Node{pick(), pick()}}}}
+	case 4:
+		ast = &Node{K: KSeq, Kids: []*Node{{K: KOptional, Kids: []*Node{byName("-a")}}, {K: KOptional, Kids: []*Node{byName("--aa")}}}}
+	default:
+		ast = &Node{K: KSeq, Kids: []*Node{{K: KRep, Kids: []*Node{pick()}}, {K: KOptional, Kids: []*Node{{K: KArg, Arg: x}}}}}
+	}
+	p.AST = ast
+	p.Spec = ast.String()
+	return p
+}
+
 // AltProg draws another spec over the same declarations: its sentences are near-misses for the original spec
 func AltProg(r *rand.Rand, p *Prog, cfg Cfg) *Prog {
 	cfg = cfg.norm()
